@@ -263,8 +263,11 @@ class _JsonGrammarHooks:
         if not stack or stack[-1][0] != id(node):
             return NotImplemented
         _, frame, after = stack.pop()
-        if exc is None:
-            # (@contextmanager without try/finally: the code after the yield only runs when the body did not raise)
+        from .engine import PyRaise
+
+        if not isinstance(exc, PyRaise):
+            # (@contextmanager without try/finally: the code after the yield only runs when the body did not raise; a return/break/continue
+            # inside the with block leaves it normally)
             ex.st.frames.append(frame)
             try:
                 ex.exec_block(after)
@@ -509,3 +512,119 @@ class _JsonGrammarHooks2:
 
 
 _install(_JsonGrammarHooks2)
+
+
+pv_schema_props = z3.Function("pv_schema_props", AttrS, StrSet)  # the property names listed by a (pickled) schema dictionary
+
+
+class _JsonStateHooks2:
+    """Methods called on the grammar's parts held as opaque values in the instance dictionary (``__setstate__``)."""
+
+    def value_attr(self, ex, obj, attr, lineno):
+        if _is_pv(obj) and attr in ("add_schema", "update") and ex.frame.module.name == JG_MODULE:
+            return BoundMethod(obj, None, f"pvpart.{attr}")
+        return NotImplemented
+
+    def call_method(self, ex, recv, name, args, kwargs, lineno):
+        from .engine import PyRaise
+
+        if not (name.startswith("pvpart.") and _is_pv(recv)):
+            return NotImplemented
+        st = ex.st
+        k = z3.Const("k!pvp", Str)
+        if name == "pvpart.add_schema" and len(args) == 2 and _is_pv(args[0]) and args[1] is True:
+            # ASSUMED (see contracts/c15_json_grammar.py: AddSchema): the properties listed by the schema become properties of the builder
+            h = st.ghost_get("json_bprops", BuilderHeap)
+            old = h[recv.term]
+            new = st.fresh_const("bprops", StrSet)
+            st.assume(z3.ForAll([k], new[k] == z3.Or(old[k], pv_schema_props(args[0].term)[k])))
+            st.ghost_set("json_bprops", z3.Store(h, recv.term, new))
+            ex.assumed.add("model:builder.add_schema(schema, True) adds the properties listed by the schema (instance-dictionary model)")
+            return None
+        if name == "pvpart.update" and len(args) == 1 and _is_pv(args[0]):
+            # Defaults.update(mapping) (verified under C15 for its field-level reading: DFSetitem + MutableMapping.update): every key must be an element of the
+            # grammar the Defaults object is bound to - here the grammar being restored, whose elements are the properties of its CURRENT builder
+            me = None
+            for fr in reversed(st.frames):
+                first = fr.finfo.node.args.args[0].arg if fr.finfo.node.args.args else None
+                me = _dict_model(ex, fr.env.get(first)) if first else None
+                if me is not None:
+                    break
+            if me is None:
+                raise Unsupported("Defaults.update outside the instance-dictionary model")
+            d = st.heap[me.fields["__dict__"].id]
+            elements = st.ghost_get("json_bprops", BuilderHeap)[d.vals[lit("_JSONGrammar__schema_builder")]]
+            src = pv_data(args[0].term)
+            sm, sv = DATA_T.acc(0)(src), DATA_T.acc(1)(src)
+            if not st.decide(z3.ForAll([k], z3.Implies(sm[k], elements[k]))):
+                raise PyRaise("KeyError", lineno)
+            h = st.ghost_get("json_defaults", DefaultsHeap)
+            cur = h[recv.term]
+            new = st.heap[DATA_T.fresh(st, "restored_defaults").id]
+            st.assume(z3.ForAll([k], z3.And(new.member[k] == z3.Or(DATA_T.acc(0)(cur)[k], sm[k]),
+                                            new.vals[k] == z3.If(sm[k], sv[k], DATA_T.acc(1)(cur)[k]))))
+            st.assume(z3.Implies(DATA_T.acc(2)(cur) == 0, new.n == DATA_T.acc(2)(src)))
+            st.ghost_set("json_defaults", z3.Store(h, recv.term, DATA_T.dt.mk(new.member, new.vals, new.n)))
+            ex.assumed.add("model:Defaults.update(mapping) sets every entry, KeyError for a key that is no element (instance-dictionary model)")
+            return None
+        raise Unsupported(f"method {name} on an opaque part of the grammar")
+
+
+_install(_JsonStateHooks2)
+
+
+json_node_of_type = z3.Function("json_node_of_type", ValS, ValS)  # {} for None, {"type": PYTHON_TO_JSON_TYPES[t]} otherwise
+json_known_type = z3.Function("json_known_type", ValS, z3.BoolSort())  # t in JSONGrammar.__PYTHON_TO_JSON_TYPES
+
+
+class _JsonGrammarHooks3:
+    """``JSONGrammar._update_from_types``: the dict comprehension over the types and the schema literal built from it."""
+
+    def comprehension(self, ex, node, kind):
+        import ast
+
+        from .engine import PyRaise
+
+        fr = ex.frame
+        if kind != "dict" or fr.module.name != JG_MODULE or not fr.finfo.qualname.endswith("JSONGrammar._update_from_types"):
+            return NotImplemented
+        if ast.unparse(node.generators[0].iter) != "names_to_types.items()" or "__PYTHON_TO_JSON_TYPES[element_type]" not in ast.unparse(node.value):
+            raise Unsupported("the comprehension of _update_from_types changed shape")
+        st = ex.st
+        src = fr.env["names_to_types"]
+        d = st.heap[src.id] if isinstance(src, Ref) else None
+        if not isinstance(d, DictObj) or d.v.sort() != ValS:
+            raise Unsupported("names_to_types is no dict of opaque types")
+        k = z3.Const("k!uft", Str)
+        # class-constant lookup `self.__PYTHON_TO_JSON_TYPES[element_type]`: KeyError for a type that is no key (first offending item; nothing was built yet)
+        if not st.decide(z3.ForAll([k], z3.Implies(d.member[k], z3.Or(d.vals[k] == val_none, json_known_type(d.vals[k]))))):
+            raise PyRaise("KeyError", node.lineno)
+        ref = PROPS_T.fresh(st, "properties")
+        p = st.heap[ref.id]
+        st.assume(z3.And(p.n == d.n, z3.ForAll([k], z3.And(p.member[k] == d.member[k], z3.Implies(d.member[k], p.vals[k] == json_node_of_type(d.vals[k]))))))
+        return ref
+
+    def make_dict(self, ex, keys, vals):
+        st = ex.st
+        if ex.frame.module.name != JG_MODULE or not keys or not all(isinstance(k, str) for k in keys):
+            return NotImplemented
+        if all(isinstance(v, str) for v in vals) or not all(isinstance(v, (str, Ref)) for v in vals):
+            return NotImplemented
+        # a schema literal {"keyword": "text", ..., "properties": <dict of property schemas>}
+        o = DictObj.empty(st, TStr, TVal)
+        k = z3.Const("k!sl", Str)
+        for key, v in zip(keys, vals):
+            if isinstance(v, str):
+                term = val_of_str(str_lit(v))
+            else:
+                d = st.heap[v.id]
+                if not isinstance(d, DictObj) or key != K_PROPERTIES or d.is_empty_literal or d.v.sort() != ValS:
+                    return NotImplemented
+                term = st.fresh_const("properties_value", ValS)
+                st.assume(z3.ForAll([k], z3.And(props_names(term)[k] == d.member[k], z3.Implies(d.member[k], props_nodes(term)[k] == d.vals[k]))))
+            o.set(st, str_lit(key), term)
+        o.ty = SCHEMA_T
+        return st.alloc(o)
+
+
+_install(_JsonGrammarHooks3)
